@@ -988,6 +988,12 @@ pub fn enum_wraps(cols: u8, rows: u8, recv: Recv, keep: &dyn Fn(&GOp) -> bool, e
     }
 }
 
+/// cases the Miri batch leaves to the native substrates
+pub fn heavy(k: &GridCase) -> bool {
+    let lay = layout(k.dims().0, k.dims().1, &k.recv);
+    k.big != (0, 0) || lay.pc * lay.pr > 2500 || (k.cell == CellKind::Fat && lay.pc * lay.pr > 36)
+}
+
 /// Fat cells are 4800 bytes each: only for small parents.
 fn fat_ok(k: &GridCase) -> bool {
     let lay = layout(k.dims().0, k.dims().1, &k.recv);
@@ -1079,6 +1085,9 @@ fn enum_recvs() -> Vec<Recv> {
 pub struct C13;
 impl Prop for C13 {
     type Case = GridCase;
+    fn heavy(k: &GridCase) -> bool {
+        heavy(k)
+    }
     const ID: &'static str = "C13";
     fn rule() -> &'static str {
         "swap / swap_rows / swap_cols / row_pair_mut / fill on {owned TooDee, TooDeeViewMut window (strided, nested), third-party implementor relying on the trait defaults}: exhaustive over shapes (0..=5)^2 x all coordinate / index pairs from {0..dim, dim+1 (rows/cols), usize::MAX} (equal, reversed, one or both out of range) x 6 receiver embeddings, plus random shapes up to 24x24; oracle = model transposition with whole-parent comparison, returned-slice identity for row_pair_mut, panic required for any out-of-range index and r1==r2 for row_pair_mut. Non-trivial = distinct in-range names on an array with >= 2 lines, or an out-of-range / equal-names case. Distinct = distinct case tuple."
@@ -1189,6 +1198,9 @@ impl Prop for C13 {
 pub struct C14;
 impl Prop for C14 {
     type Case = GridCase;
+    fn heavy(k: &GridCase) -> bool {
+        heavy(k)
+    }
     const ID: &'static str = "C14";
     fn rule() -> &'static str {
         "copy_from_slice / clone_from_slice / copy_from_toodee / clone_from_toodee with destinations {owned, strided / nested / empty window, third-party implementor} x sources {slice, owned, view, strided view, mutable view} of equal and unequal size (incl. same area, different shape), and copy_within exhaustively over shapes up to 4x4 (thorough 5x5) x all source rectangles {0..dim+1}^4 x all destination corners {0..dim+1}^2 x 3 implementors plus huge destination / rectangle components; oracle = row-major transfer / prior-contents rectangle copy with whole-parent comparison, panic required when sizes differ or a rectangle does not fit (contents after such a panic unconstrained). Non-trivial = overlapping source and destination of non-zero area, or a strided source/destination, or an empty destination, or a rejected call. Distinct = distinct case tuple."
@@ -1346,6 +1358,9 @@ fn gcd(a: usize, b: usize) -> usize {
 pub struct C15;
 impl Prop for C15 {
     type Case = GridCase;
+    fn heavy(k: &GridCase) -> bool {
+        heavy(k)
+    }
     const ID: &'static str = "C15";
     fn rule() -> &'static str {
         "translate_with_wrap / flip_rows / flip_cols: exhaustive over shapes (0..=8)^2 (thorough 12^2) x all mids 0..=dim+1 (+ usize::MAX) x {owned, interior window, nested window, Thin}; random shapes up to 48x48. Oracle = the stated index formula on distinct cells (so loss / duplication is impossible to miss) with whole-parent comparison; mid component > dim must panic. Non-trivial = row offset not in {0,R} with gcd(R, R-mr) > 1 (multi-cycle path), or a column offset not in {0,C}, or a rejected call. Distinct = distinct case tuple."
@@ -1606,6 +1621,9 @@ fn sort_execute(k: &GridCase, ctx: &mut Ctx) -> Verdict {
 pub struct C16;
 impl Prop for C16 {
     type Case = GridCase;
+    fn heavy(k: &GridCase) -> bool {
+        heavy(k)
+    }
     const ID: &'static str = "C16";
     fn rule() -> &'static str {
         "the six sort-by-row variants (closure incl. reversed comparator, key function incl. non-monotone keys, Ord; stable and unstable) on {owned, interior window, Thin, nested}: every key row of length 1..=5 (thorough 6) over a 3-letter alphabet (all tie patterns) x heights {1,3}, every out-of-range row index, plus random key rows of length 21..96 (std's unstable sort is an insertion sort, hence accidentally stable, for short inputs: up to 20 or 32 elements depending on the std version) and small shapes; cells are (key,id) with unique ids. Oracle (both directions): chosen row ordered, every result column is one original column intact and each original column appears exactly once; stable variants equal the model's stable sort (ties keep left-to-right order); out-of-range row panics; outside of a window unchanged. Non-trivial = >= 1 tie and >= 1 inversion in the key row of an array with >= 2 columns. Distinct = distinct case tuple."
@@ -1644,6 +1662,9 @@ impl Prop for C16 {
 pub struct C17;
 impl Prop for C17 {
     type Case = GridCase;
+    fn heavy(k: &GridCase) -> bool {
+        heavy(k)
+    }
     const ID: &'static str = "C17";
     fn rule() -> &'static str {
         "the five sort-by-column variants (closure incl. reversed comparator, key function incl. non-monotone keys, Ord; stable and unstable) on {owned, interior window, Thin, nested}: every key column of length 1..=5 (thorough 6) over a 3-letter alphabet x widths {1,3}, every out-of-range column index, plus random key columns of length 21..96 and small non-square shapes; cells are (key,id) with unique ids. Oracle (both directions): chosen column ordered (by the comparison or the key function), every result row is one original row intact and each appears exactly once; stable variants equal the model's stable sort (ties keep top-to-bottom order); out-of-range column panics; outside of a window unchanged. Non-trivial = >= 1 tie and >= 1 inversion in the key column of an array with >= 2 rows. Distinct = distinct case tuple."
@@ -1721,6 +1742,9 @@ pub fn valid_op(cols: u8, rows: u8) -> BoxedStrategy<GOp> {
 pub struct C04;
 impl Prop for C04 {
     type Case = GridCase;
+    fn heavy(k: &GridCase) -> bool {
+        heavy(k)
+    }
     const ID: &'static str = "C04";
     fn rule() -> &'static str {
         "one valid mutating operation (indexed writes, fill, swap family, row_pair_mut, writes through rows_mut / col_mut / cells_mut incl. rev / skip / step_by, copy_from_slice, clone_from_slice, copy/clone_from_toodee, copy_within, all eleven sort variants, translate_with_wrap, flips) on a TooDeeViewMut window of a parent with distinct cells: window classes interior, touching each edge, single row / column, full, empty, nested two levels (also a full-width inner window of a strided outer one), a view built directly over a longer slice, and through a third-party wrapper; shapes up to 10x10 with margins 0..3. Oracle: (a) every parent cell outside the rectangle is bit-for-bit unchanged; (b) differential: inside equals the result of the same operation on an owned copy (unstable sorts with tied keys: validity only), and both equal the rows-of-cells model. Non-trivial = the window is smaller than its parent in at least one dimension and the operation changed at least one inside cell. Distinct = distinct case tuple."
